@@ -229,6 +229,11 @@ func TestC05(t *testing.T) {
 				reps[i] = ring.NewDesc()
 			}
 			var lastChange []*ring.Desc = make([]*ring.Desc, nRep)
+			type heldState struct {
+				obj   *ring.Desc
+				canon string
+			}
+			var held []heldState
 			var history []string
 			steps := 8 + rng.IntN(10)
 			for step := 0; step < steps; step++ {
@@ -301,6 +306,20 @@ func TestC05(t *testing.T) {
 					return
 				}
 				lastChange[ri] = change
+				// states handed out earlier (Desc.Clone(), what the KV store gives to readers and ring clients) are
+				// never touched by later merges
+				for _, h := range held {
+					if now := canon(h.obj); now != h.canon {
+						run.Violation(c, "held-state-changed-by-later-merge", "a state obtained through Desc.Clone() before this merge changed under the reader's feet", map[string]any{"history": history, "held_then": h.canon, "held_now": now})
+						return
+					}
+				}
+				if hc, ok := recv.Clone().(*ring.Desc); ok {
+					held = append(held, heldState{hc, canon(hc)})
+					if len(held) > 6 {
+						held = held[1:]
+					}
+				}
 				run.EvalH(vt.Mix(vt.Hash64(canon(before)), vt.Hash64(canon(incoming)), 1), collisions > 0)
 				run.Count("merges", 1)
 				run.Count("token_collisions", int64(collisions))
